@@ -20,11 +20,13 @@ def run(c):
     # the design as coded: a server application that admits a forwarded kind without handler
     c.mc("ChanOpen", cfg_text(constants=dict(small, Crash=True), invariants=INVS, deadlock=False), expect="DeliveredOnce",
          name="design as coded: admitted forwarded kind without handler reaches nobody", workers=2)
-    r = c.mc_holds("ChanOpen", cfg_text(constants=consts, invariants=INVS + ["Emit"], deadlock=False), name="all scripts", workers=1)
-    cases = r.printed("CASE")
     seen = {}
-    for cs in cases:
-        seen[(cs[1], tuple(tuple(sorted(s.items())) for s in cs[2]))] = (cs[2], cs[3])
+    configs = [consts] if c.quick else [consts, dict(consts, MaxOpens=3, MaxToggles=0)]
+    for cf in configs:
+        r = c.mc_holds("ChanOpen", cfg_text(constants=cf, invariants=INVS + ["Emit"], deadlock=False),
+                       name="all scripts (%d opens, %d handler changes)" % (cf["MaxOpens"], cf["MaxToggles"]), workers=1)
+        for cs in r.printed("CASE"):
+            seen[(cs[1], tuple(tuple(sorted(s.items())) for s in cs[2]))] = (cs[2], cs[3])
     if len(seen) < 500:
         raise Machinery("TLC emitted only %d behaviours" % len(seen))
     batch, recs = [], []
@@ -57,5 +59,6 @@ def run(c):
                 "%s: %s transport, script [%s]: model answers %s, code %s" % (clause, rec["mode"], sc, rec["model"], rec["obs"]),
                 {"mode": rec["mode"], "script": rec["script"]})
     c.verdicts(res["VERDICT"], describe)
-    c.rule = "every script TLC enumerates: %d CHANNEL_OPEN messages over 6 kinds x 5 application answers with up to 2 handler installations / removals in between, both roles, replayed on a real Transport" % consts["MaxOpens"]
+    c.rule = "every script TLC enumerates: %s, 6 kinds x 5 application answers, both roles, replayed on a real Transport" % " and ".join(
+        "%d CHANNEL_OPEN messages with up to %d handler installations / removals in between" % (cf["MaxOpens"], cf["MaxToggles"]) for cf in configs)
     c.assumptions = ["Transport without socket: _send_message captured, handlers installed through _set_x11_handler / _set_forward_agent_handler / the attribute request_port_forward sets"]
